@@ -302,6 +302,15 @@ def recisrn_request(x, y, metric, tx, ty, txy, px, py):
             f"{enc_rat(Fraction(float(txy)))} {enc_emb(x)} {enc_emb(y)}")
 
 
+def recjointrate_request(x, y, metric, kx, ky, perm):
+    return (f"recjointrate {','.join(map(str, perm))} {metric} {kx} {ky} {enc_emb(x)} {enc_emb(y)}")
+
+
+def recisrnrate_request(x, y, metric, kx, ky, kxy, px, py):
+    return (f"recisrnrate {','.join(map(str, px))} {','.join(map(str, py))} {metric} "
+            f"{kx} {ky} {kxy} {enc_emb(x)} {enc_emb(y)}")
+
+
 def compare_sections(kind, ans, impl, tol):
     """-> (number of values compared, list of mismatch descriptions)"""
     mv = parse_sections(ans)
@@ -1020,7 +1029,8 @@ def run(ctx):
              "geo": "C12 model `Geo` (squared grid distances of renumbered coordinates, link-distance "
                     "measures)",
              "rec": "C07 model `Recurrence` (recurrence-network adjacency of reordered state vectors: fixed "
-                    "threshold, fixed global / local recurrence rate, joint, inter-system)",
+                    "threshold, fixed global / local recurrence rate, joint, inter-system, and the fixed-rate "
+                    "variants of joint / inter-system)",
              "lattr": "C05 model `Repr` (set_link_attribute then link_attribute on the links in the "
                       "order the twin's embedded igraph object lists them, every construction path)"}
     for k in TOL:
@@ -1116,6 +1126,41 @@ def timeseries_networks(ctx, reqs, meta):
         reqs.append(recisrn_request(x, z, metric, thr, thr, thr + 0.5, perm, pz))
         meta.append(("rec", f"ts{rep}:inter-system", tuple(perm + [n + k for k in pz]),
                      [flat(np.asarray(mk_isrn(perm).adjacency, dtype=float))]))
+        # round 5: the fixed-rate variants of the joint (lag 0) and the inter-system network
+        # (`rec_joint_rate_relabel`, `rec_intersystem_rate_relabel`): model on the reordered state
+        # vectors == implementation, and the generic oracle on every network measure
+        rate2, rate3 = rng.choice([0.2, 0.35, 0.6]), rng.choice([0.3, 0.5, 0.7])
+
+        def mk_jrn_rr(p):
+            idx = np.arange(n) if p is None else np.array(p)
+            return JointRecurrenceNetwork(x[idx], y[idx], metric=(metric, metric),
+                                          recurrence_rate=(rate, rate2), silence_level=3)
+
+        def mk_isrn_rr(p):
+            if p is None:
+                return InterSystemRecurrenceNetwork(x, z, metric=metric,
+                                                    recurrence_rate=(rate, rate2, rate3),
+                                                    silence_level=3)
+            return InterSystemRecurrenceNetwork(x[np.array(perm)], z[np.array(pz)], metric=metric,
+                                                recurrence_rate=(rate, rate2, rate3),
+                                                silence_level=3)
+        reqs.append(recjointrate_request(x, y, metric, int(rate * (n * n - 1)),
+                                         int(rate2 * (n * n - 1)), perm))
+        meta.append(("rec", f"ts{rep}:joint-rate", tuple(perm),
+                     [flat(np.asarray(mk_jrn_rr(perm).adjacency, dtype=float))]))
+        reqs.append(recisrnrate_request(x, z, metric, int(rate * (n * n - 1)),
+                                        int(rate2 * (m * m - 1)), int(rate3 * (n * m - 1)),
+                                        perm, pz))
+        meta.append(("rec", f"ts{rep}:inter-system-rate", tuple(perm + [n + k for k in pz]),
+                     [flat(np.asarray(mk_isrn_rr(perm).adjacency, dtype=float))]))
+        equivariance(ctx, "JointRecurrenceNetwork", mk_jrn_rr, perm,
+                     own(JointRecurrenceNetwork, RecurrencePlot, JointRecurrencePlot), n,
+                     dict(base, y=y.tolist(), cls="JointRecurrenceNetwork",
+                          recurrence_rate=[rate, rate2]))
+        equivariance(ctx, "InterSystemRecurrenceNetwork", mk_isrn_rr, perm + [n + k for k in pz],
+                     own(InterSystemRecurrenceNetwork), n + m,
+                     dict(base, y=z.tolist(), cls="InterSystemRecurrenceNetwork",
+                          recurrence_rate=[rate, rate2, rate3]))
         equivariance(ctx, "RecurrenceNetwork", mk_rn_rr, perm,
                      own(RecurrenceNetwork, RecurrencePlot), n,
                      dict(base, cls="RecurrenceNetwork", recurrence_rate=rate))
